@@ -37,6 +37,7 @@ func checkC09(w *World, r *Report) {
 	ruleSetRefill(w, r, "C09", trig, pred, opts)
 	ruleGetters(w, r, "C09", trig, pred, opts)
 	ruleShorthands(w, r, "C09", trig, pred, opts)
+	ruleLocksReleased(w, r, "C09.L-UNLOCK")
 	r.Floor("C09.F1v", 4, "increment/set closures")
 	r.Floor("C09.F9", 3, "getters")
 	r.Floor("C09.F10", 4, "shorthands")
